@@ -205,6 +205,19 @@ func pathOf(prefix []string, key string) []string {
 	return append(p, key)
 }
 
+// boom panics with the payload "boom:<id>" from a call stack 0-44 frames deep (user code panics
+// anywhere; the depth decides how long the recovering side spends in debug.Stack).
+func boom(id int) {
+	var down func(k int)
+	down = func(k int) {
+		if k <= 0 {
+			panic("boom:" + strconv.Itoa(id))
+		}
+		down(k - 1)
+	}
+	down((id * 7) % 45)
+}
+
 // callTime is what every lambda flavour does when it is called.
 func callTime(e *env, n *Node, path []string) error {
 	switch n.Beh {
@@ -213,7 +226,7 @@ func callTime(e *env, n *Node, path []string) error {
 		return n.Err.mk()
 	case "panic":
 		e.rec(path, "panic")
-		panic("boom:" + strconv.Itoa(n.ID))
+		boom(n.ID)
 	case "rerun":
 		e.rec(path, "rerun")
 		return compose.InterruptAndRerun
@@ -304,7 +317,7 @@ func (t *hTool) InvokableRun(ctx context.Context, args string, opts ...tool.Opti
 		return "", t.spec.Err.mk()
 	case "panic":
 		t.e.rec(t.path, "tool-panic")
-		panic("boom:" + strconv.Itoa(t.spec.ID))
+		boom(t.spec.ID)
 	}
 	t.e.rec(t.path, "tool-ok")
 	return "r", nil
@@ -653,7 +666,69 @@ var fatalMarker = func() string {
 	return p
 }()
 
-func runImpl(c *Case) Obs {
+// schedSensitive: how many extra times a case is run because its answer may depend on the schedule
+// (parallel nodes in one step, parallel tool calls): every run must satisfy the oracle and be a
+// legal answer of the model.  Panics on spawned goroutines get more runs: the recovery paths
+// (recover, debug.Stack, hand-off to the waiter) are where an ordering mistake hides.
+func schedSensitive(c *Case) int {
+	par, parPanic := false, false
+	var walk func(g *Graph)
+	walk = func(g *Graph) {
+		for _, st := range g.Stages {
+			for _, n := range st {
+				if len(st) >= 2 {
+					par = true
+					if n.Beh == "panic" || n.Beh == "convpanic" {
+						parPanic = true
+					}
+				}
+				if n.Kind == "sub" {
+					walk(n.Sub)
+				}
+				if n.Kind == "tools" && len(n.Tools) >= 2 {
+					par = true
+					for i, t := range n.Tools {
+						if i >= 1 && (t.Beh == "panic" || t.Beh == "convpanic") {
+							parPanic = true
+						}
+					}
+				}
+			}
+		}
+	}
+	walk(c.G)
+	switch {
+	case parPanic:
+		return 12
+	case par:
+		return 3
+	}
+	return 0
+}
+
+// runImpl runs the case 1 + schedSensitive(c) times (fresh graph each time) and returns the
+// distinct observations, the first run's first.
+func runImpl(c *Case) []Obs {
+	first := runOnce(c)
+	all := []Obs{first}
+	if first.Class == "hang" || first.Class == "build" {
+		return all
+	}
+	seen := map[string]bool{first.coq(): true}
+	for k := schedSensitive(c); k > 0; k-- {
+		o := runOnce(c)
+		if key := o.coq(); !seen[key] {
+			seen[key] = true
+			all = append(all, o)
+		}
+		if o.Class == "hang" {
+			break
+		}
+	}
+	return all
+}
+
+func runOnce(c *Case) Obs {
 	e := &env{}
 	ctx, cancel := context.WithCancel(context.Background())
 	defer cancel()
@@ -671,7 +746,11 @@ func runImpl(c *Case) Obs {
 	}
 	// a panic on a goroutine the harness does not own kills the process: leave a marker naming the case
 	if fatalMarker != "" {
-		b, _ := json.Marshal(map[string]any{"case": c, "what": "the process died while this case was running (a panic escaped on a goroutine of the implementation)"})
+		// ("case" is blanked by ./check when it copies the marker into the replay file: the case is
+		// kept under "failing_case" as well, with the way to re-run it)
+		b, _ := json.Marshal(map[string]any{"case": c, "failing_case": c, "case_summary": summary(c),
+			"how_to_replay": "write {\"case\": <the value of failing_case>} to a file F and run ./check C13 --replay F (the harness process dies again while it runs the case)",
+			"what":          "the process died while this case was running (a panic escaped on a goroutine of the implementation): " + summary(c)})
 		os.WriteFile(fatalMarker, b, 0o644)
 		defer os.Remove(fatalMarker)
 	}
@@ -723,6 +802,48 @@ func runImpl(c *Case) Obs {
 	return Obs{Class: "ok", Log: e.snapshot()}
 }
 
+// summary: the paradigm and the faults of a case with their node paths, in words.
+func summary(c *Case) string {
+	if c.Fwd != nil {
+		return fmt.Sprintf("forwarder case, %d sources", len(c.Fwd.Srcs))
+	}
+	var fs []string
+	var walk func(g *Graph, prefix []string)
+	walk = func(g *Graph, prefix []string) {
+		for _, st := range g.Stages {
+			for _, n := range st {
+				p := strings.Join(pathOf(prefix, n.Key), "/")
+				switch n.Kind {
+				case "lam":
+					if n.Beh != "ok" {
+						fs = append(fs, p+":"+n.Flav+"-lambda "+n.Beh)
+					}
+				case "sub":
+					walk(n.Sub, pathOf(prefix, n.Key))
+				case "tools":
+					for i, t := range n.Tools {
+						if t.Beh != "ok" {
+							fs = append(fs, fmt.Sprintf("%s/tn:tool call %d of %d %s", p, i, len(n.Tools), t.Beh))
+						}
+					}
+				}
+			}
+		}
+		if g.Br != "" {
+			fs = append(fs, strings.Join(pathOf(prefix, "#branch"), "/")+":condition "+g.Br)
+		}
+	}
+	walk(c.G, nil)
+	s := c.Par + "; faults: " + strings.Join(fs, ", ")
+	if c.CancelBefore {
+		s += "; context cancelled before the call"
+	}
+	if c.InErr != nil {
+		s += "; error item on the input stream"
+	}
+	return s
+}
+
 func (e *env) snapshot() []execRec {
 	e.mu.Lock()
 	defer e.mu.Unlock()
@@ -763,9 +884,10 @@ func (engine) Run(ci any) lib.Result {
 		res.CoqTerm = fwdCaseCoq(c, &o)
 		return res
 	}
-	o := runImpl(c)
+	all := runImpl(c)
+	o := all[0]
 	res := lib.Result{Obs: o}
-	res.Tags = tagsOf(c, &o)
+	res.Tags = append(tagsOf(c, &o), fmt.Sprintf("runs:%d", 1+schedSensitive(c)), fmt.Sprintf("distinct-answers:%d", len(all)))
 	res.Nontrivial = o.Class != "ok" && o.Class != "build"
 	if o.Class == "build" {
 		// the generator only emits well-formed graphs: a build failure is a harness defect, make it loud
@@ -773,8 +895,16 @@ func (engine) Run(ci any) lib.Result {
 		res.Sig = "harness-build"
 		return res
 	}
-	res.Oracle, res.Sig = oracle(c, &o)
-	res.CoqTerm = caseCoq(c, &o)
+	for i := range all {
+		if res.Oracle, res.Sig = oracle(c, &all[i]); res.Oracle != "" {
+			res.Obs = all[i] // the run that violates the property
+			if i > 0 {
+				res.Oracle = fmt.Sprintf("(one of %d runs of the case) ", 1+schedSensitive(c)) + res.Oracle
+			}
+			break
+		}
+	}
+	res.CoqTerm = caseCoq(c, all)
 	return res
 }
 
